@@ -10,7 +10,9 @@
   steps (events that are not enabled are no-ops).
 -/
 import EinoV.Model.C10
+import EinoV.Model.C10Runs
 import EinoV.Proofs.C10
+import EinoV.Proofs.C10Runs
 import EinoV.Gen.FactsC10
 import EinoV.Expected.C10
 
@@ -20,9 +22,15 @@ open EinoV.Gen
 /-- the unit machine's parameters, as extracted from internal/callbacks/inject.go -/
 def genFacts : Facts := ⟨FactsC10.appendHandlersCopies, FactsC10.onCopies, FactsC10.startReversed⟩
 
+/-- the compose level's parameters, as extracted from compose/graph_run.go, utils.go, tool_node.go -/
+def genCF : CFacts :=
+  ⟨FactsC10.runHasDeferredBlock, FactsC10.deferStartsIfMissing, FactsC10.wrapperOnErrorAlways,
+   FactsC10.toolRunInfoUnconditional⟩
+
 /-- Source fact tie: every regenerated fact has the value the theorems (and the oracle) use. -/
 theorem facts_match :
     genFacts = Expected.C10.facts ∧
+    genCF = Expected.C10.cfacts ∧
     FactsC10.startStreamReversed = FactsC10.startReversed ∧
     FactsC10.endForward = Expected.C10.endForward ∧
     FactsC10.streamCopyExtra = Expected.C10.streamCopyExtra ∧
@@ -32,7 +40,9 @@ theorem facts_match :
     FactsC10.startSetsFlag = Expected.C10.startSetsFlag ∧
     FactsC10.wrapperStartThenEndOrError = Expected.C10.wrapperStartThenEndOrError ∧
     FactsC10.injectionGuarded = Expected.C10.injectionGuarded ∧
-    FactsC10.toolCallOwnRunInfo = Expected.C10.toolCallOwnRunInfo := by
+    FactsC10.toolCallOwnRunInfo = Expected.C10.toolCallOwnRunInfo ∧
+    FactsC10.wrapperOnErrorAlways = Expected.C10.wrapperOnErrorAlways ∧
+    FactsC10.toolRunInfoUnconditional = Expected.C10.toolRunInfoUnconditional := by
   decide
 
 /-- `AppendHandlers` copies the inherited slice before appending (source fact) -/
@@ -227,22 +237,107 @@ theorem graph_callbacks_once (isStream : Bool) (p : RunPath) :
     not wrapped (the framework adds nothing to what the component does). -/
 theorem wrapper_callbacks_once (startStream : Bool) (k : EndKind) (own : List Timing) :
     FactsC10.wrapperStartThenEndOrError = true ∧ FactsC10.injectionGuarded = true ∧
-    kindProg FactsC10.runHasDeferredBlock FactsC10.deferStartsIfMissing (.wrapped startStream k)
-      = [startT startStream, endT k] ∧
-    kindProg FactsC10.runHasDeferredBlock FactsC10.deferStartsIfMissing (.self own) = own :=
-  ⟨by decide, by decide, rfl, rfl⟩
+    kindProg genCF (.wrapped startStream k) = [startT startStream, endT k] ∧
+    kindProg genCF (.self own) = own := by
+  have h : FactsC10.wrapperOnErrorAlways = true := by decide
+  refine ⟨by decide, by decide, ?_, rfl⟩
+  cases k <;> simp [kindProg, wrapperCalls, genCF, h, endT]
 
 /-- every framework-issued program is one start timing followed by one distinct end timing -/
 theorem framework_prog_shape (u : UKind) (hnotSelf : ∀ own, u ≠ .self own) :
-    ∃ s e, kindProg FactsC10.runHasDeferredBlock FactsC10.deferStartsIfMissing u = [s, e] ∧
-      s.isStart = true ∧ e.isStart = false := by
+    ∃ s e, kindProg genCF u = [s, e] ∧ s.isStart = true ∧ e.isStart = false := by
   cases u with
   | graph isStream p =>
     refine ⟨_, _, graph_callbacks_once isStream p, ?_, ?_⟩
     · cases isStream <;> rfl
     · cases p <;> cases isStream <;> rfl
-  | wrapped s k => exact ⟨_, _, rfl, by cases s <;> rfl, by cases k <;> rfl⟩
+  | wrapped s k =>
+    exact ⟨_, _, (wrapper_callbacks_once s k []).2.2.1, by cases s <;> rfl, by cases k <;> rfl⟩
   | self own => exact absurd rfl (hnotSelf own)
+
+/-! ## the error / interrupt path: a unit that started is finished exactly once -/
+
+/-- `runWithCallbacks` reaches `onError` on every `err != nil` path (source fact: nothing
+    returns between the wrapped call and `onError`) -/
+theorem fact_wrapper_on_error_always : genCF.wrapperOnErrorAlways = true := by decide
+/-- the tool call's context is made with the tool's own RunInfo unconditionally (source fact) -/
+theorem fact_tool_run_info_unconditional : genCF.toolOwnInfoAlways = true := by decide
+
+/-- **wrapper_finishes_on_every_path.** Whatever the wrapped function returns — a value, a
+    stream, a failure, or an *interrupt* (`InterruptAndRerun`, an error wrapping it, a sub-graph
+    interrupt) — a returned `runWithCallbacks` call fired the start callback and then exactly
+    the finishing callback of that outcome; for an interrupt that is `OnError`. -/
+theorem wrapper_finishes_on_every_path (startStream : Bool) (k : EndKind) :
+    wrapperCalls FactsC10.wrapperOnErrorAlways startStream k = [startT startStream, endT k] ∧
+    endT .intr = Timing.error := by
+  have h : FactsC10.wrapperOnErrorAlways = true := by decide
+  rw [h]
+  cases k <;> simp [wrapperCalls, endT]
+
+/-- **started_implies_finished_once.** For every unit the framework issues callbacks for (the
+    graph on every return path, a wrapped node execution or tool call with every outcome,
+    *including the interrupt outcome*), in every interleaving with the other units: once the
+    unit has returned, every handler of its list that filters nothing received exactly as many
+    start-kind callbacks as it occurs in the list (one, for a handler passed once) and exactly
+    as many finishing callbacks (end / stream end / error, all kinds counted together) — never
+    a start without a finish, never two finishes. -/
+theorem started_implies_finished_once (P : Prog) (evs : List Ev) (i : Nat) (u : UKind)
+    (hnotSelf : ∀ own, u ≠ .self own) (hprog : unitProg P i = kindProg genCF u)
+    (hfin : (run genFacts P evs).pc i = 2) (h : Hd) (hall : h.mask = none) :
+    countStart (run genFacts P evs).log i h = (spec P i ++ P.globals).count h ∧
+    countFinish (run genFacts P evs).log i h = (spec P i ++ P.globals).count h := by
+  obtain ⟨s, e, hk, hs, he⟩ := framework_prog_shape u hnotSelf
+  rw [hk] at hprog
+  have hse : s ≠ e := by intro heq; rw [heq, he] at hs; cases hs
+  obtain ⟨a, b, c⟩ := fire_once_paired P evs i s e hprog hse hfin h
+  have hn : ∀ t, h.needed t = true := by intro t; simp [Hd.needed, hall]
+  simp only [hn, if_true] at a b
+  unfold countStart countFinish
+  cases s <;> simp [Timing.isStart] at hs <;> cases e <;> simp [Timing.isStart] at he <;>
+    simp [a, b, c]
+
+/-- the interrupt outcome specifically: the finishing callback is `OnError`, exactly once -/
+theorem interrupted_unit_gets_error_once (P : Prog) (evs : List Ev) (i : Nat) (startStream : Bool)
+    (hprog : unitProg P i = kindProg genCF (.wrapped startStream .intr))
+    (hfin : (run genFacts P evs).pc i = 2) (h : Hd) (hall : h.mask = none)
+    (honce : (spec P i ++ P.globals).count h = 1) :
+    countEv (run genFacts P evs).log i h (startT startStream) = 1 ∧
+    countEv (run genFacts P evs).log i h .error = 1 ∧
+    countEv (run genFacts P evs).log i h .end_ = 0 ∧
+    countEv (run genFacts P evs).log i h .endStream = 0 := by
+  rw [(wrapper_callbacks_once startStream .intr []).2.2.1] at hprog
+  have hse : startT startStream ≠ endT .intr := by cases startStream <;> simp [startT, endT]
+  obtain ⟨a, b, c⟩ := fire_once_paired P evs i _ _ hprog hse hfin h
+  have hn : ∀ t, h.needed t = true := by intro t; simp [Hd.needed, hall]
+  simp only [hn, if_true, honce] at a b
+  refine ⟨a, b, c _ ?_ ?_, c _ ?_ ?_⟩ <;> cases startStream <;> simp [startT, endT]
+
+/-- **run_units_paired.** In the interrupted run *and* in the run resumed from the checkpoint,
+    every execution unit — the called graph, nested graphs, node executions, ToolsNodes, tool
+    calls, whether it completes, interrupts, or contains something that interrupts, whether the
+    framework or the component itself fires the callbacks — has the program "one start, then
+    one finishing callback"; and in the resumed run nothing ends with the interrupt outcome. -/
+theorem run_units_paired (sh : Shape) (first : Bool) (u : UnitSpec) (hu : u ∈ runUnits sh first) :
+    (∃ s e, kindProg genCF u.kind = [s, e] ∧ s.isStart = true ∧ e.isStart = false) ∧
+    (first = false → u.kind.isInterrupt = false) := by
+  refine ⟨paired_runUnits (cf := genCF) (by decide) (by decide) (by decide) sh first u hu, ?_⟩
+  intro hf
+  subst hf
+  exact resumed_runUnits sh u hu
+
+/-! ## run info of a tool call -/
+
+/-- **tool_call_run_info_own.** Every callback delivered by a unit of a compose run — in
+    particular by a tool call of a ToolsNode, and in particular by a tool that implements
+    `IsCallbacksEnabled` and fires `callbacks.OnStart / OnEnd / OnEndWithStreamOutput / OnError`
+    itself — carries that unit's own RunInfo (for a tool: its name, type and component), never
+    the ToolsNode's. -/
+theorem tool_call_run_info_own (c : Case) (evs : List Ev) (k : Nat) (u : UnitSpec)
+    (hu : c.units[k]? = some u) (e : LogEv)
+    (he : e ∈ (run genFacts (progOf genCF c) evs).log) (hunit : e.unit = k + shiftOf c) :
+    e.info = u.info := by
+  rw [(no_cross_node _ evs e he).2.1, hunit]
+  exact unitInfo_progOf fact_tool_run_info_unconditional c k u hu
 
 /-! ## stream payload copies -/
 
@@ -273,10 +368,10 @@ def h (n : Nat) : Hd := ⟨n, none⟩
 def exCase : Case :=
   { globals := [h 9], userInit := none,
     opts := [⟨[h 1], []⟩, ⟨[h 2], []⟩, ⟨[h 3], []⟩, ⟨[h 4], [["A"]]⟩, ⟨[⟨5, some 3⟩], [["B"]]⟩],
-    units := [⟨[], false, "g", .graph false .ok⟩, ⟨["A"], false, "A", .wrapped false .ok⟩,
-              ⟨["B"], false, "B", .wrapped false .err⟩, ⟨["B", "t"], true, "t", .wrapped false .ok⟩] }
+    units := [⟨[], false, "g", .graph false .ok, true⟩, ⟨["A"], false, "A", .wrapped false .ok, false⟩,
+              ⟨["B"], false, "B", .wrapped false .err, false⟩, ⟨["B", "t"], true, "t", .wrapped false .ok, false⟩] }
 
-def exProg : Prog := progOf true true exCase
+def exProg : Prog := progOf ⟨true, true, true, true⟩ exCase
 
 example : (buildCbs exCase.opts).2 = ⟨2, 0, 3, 4⟩ := by decide
 example : (exProg.units.map (·.parent)) = [none, some 0, some 0, some 2] := by decide
@@ -321,6 +416,53 @@ theorem caller_slice_scribbled_with_inplace_on :
     handlersFor st 1 = some [h 1, h 2, h 3, h 9] ∧
     (projLog st.log 1).map (fun e => e.h.id) = [9, 9, 3, 2, 1] := by
   decide
+
+/-- **The early return before `onError`** (`wrapperOnErrorAlways = false`): a node execution or
+    tool call that interrupts gets its start callback and nothing else … -/
+theorem interrupt_unpaired_with_early_return (startStream : Bool) :
+    wrapperCalls false startStream .intr = [startT startStream] := rfl
+
+/-- a ToolsNode `T` with one tool `t` that fires its own callbacks, one graph-level handler -/
+def toolCase : Case :=
+  { globals := [], userInit := none, opts := [⟨[h 1], []⟩],
+    units := [⟨[], false, "g", .graph false .ok, true⟩, ⟨["T"], false, "T", .wrapped false .ok, false⟩,
+              ⟨["T", "t"], true, "t", .self [.start, .end_], true⟩] }
+
+/-- … and on the unit machine: the node that interrupts in `exCase`-like runs delivers one
+    start and no finishing callback to the graph-level handler. -/
+theorem interrupt_unpaired_on_machine :
+    let c : Case := { toolCase with units := [⟨[], false, "g", .graph false .lateErr, true⟩,
+                                              ⟨["A"], false, "A", .wrapped false .intr, false⟩] }
+    let P := progOf ⟨true, true, false, true⟩ c
+    (projLog (run ⟨true, true, true⟩ P (seqSchedule P)).log 1).map (fun e => (e.h.id, e.t)) = [(1, .start)] := by
+  decide
+
+/-- **Tool calls made in the ToolsNode's own context** (`toolRunInfoUnconditional = false`): the
+    callbacks a callback-enabled tool fires are delivered with the ToolsNode's RunInfo. -/
+theorem tool_fires_under_toolsnode_info_when_conditional :
+    let P := progOf ⟨true, true, true, false⟩ toolCase
+    (⟨2, "T", h 1, .start⟩ : LogEv) ∈ (run ⟨true, true, true⟩ P (seqSchedule P)).log ∧
+    ∀ e ∈ (run ⟨true, true, true⟩ P (seqSchedule P)).log, e.info ≠ "t" := by
+  decide
+
+/-- with the facts of the source the same tool's callbacks carry its own RunInfo -/
+example : let P := progOf ⟨true, true, true, true⟩ toolCase
+    (projLog (run ⟨true, true, true⟩ P (seqSchedule P)).log 2).map (fun e => (e.info, e.t)) =
+      [("t", .start), ("t", .end_)] := by decide
+
+/-- non-vacuity of `run_units_paired`: a lambda that interrupts next to a ToolsNode one of whose
+    two tools (callback-enabled) interrupts; first run: 5 units + no join; resumed run: the same
+    units run again, then `join` -/
+def exShape : Shape :=
+  ⟨false, [.inner (.lam "A" .i false true),
+           .inner (.tools "T" [⟨"t1", true, false, true, true⟩, ⟨"t2", false, true, false, false⟩])]⟩
+
+example : (runUnits exShape true).map (fun u => (u.info, kindProg ⟨true, true, true, true⟩ u.kind)) =
+    [("G||Graph", [.start, .error]), ("n:A|Li|Lambda", [.start, .error]), ("n:T||ToolsNode", [.start, .error]),
+     ("t1|Tt1|Tool", [.start, .error]), ("t2|Tt2|Tool", [.start, .endStream])] := by decide
+example : (runUnits exShape false).map (fun u => (u.info, kindProg ⟨true, true, true, true⟩ u.kind)) =
+    [("G||Graph", [.start, .end_]), ("n:A|Li|Lambda", [.start, .end_]), ("n:T||ToolsNode", [.start, .end_]),
+     ("t1|Tt1|Tool", [.start, .end_]), ("t2|Tt2|Tool", [.start, .endStream]), ("n:join|Li|Lambda", [.start, .end_])] := by decide
 
 /-- without the deferred block a failing run never reports its end;
     with a deferred block that does not check `haveOnStart` an early error return has no start -/
